@@ -787,6 +787,10 @@ class GraphWorld:
         self.g, self.nm, self.graph = g, g.nodemaker, graph
         types = graph["type"]
         self.caps = {}          # obj -> {"w": cap or None, "r": cap}
+        self.keep = []
+        # in every other world the directories are filled through ANOTHER gateway (its own NodeMaker): the traversing
+        # gateway still holds node objects that last saw the directories empty
+        self.filler = g.make_nodemaker() if rng.random() < 0.5 else self.nm
         self.back = {}          # cap string -> (obj, lvl)
         k = lambda o, t, n=16: fake_key(b"%s-%s-%s" % (tag, o.encode(), t), n)
         # immutable directories bottom-up (their contents are fixed at creation)
@@ -795,6 +799,11 @@ class GraphWorld:
             if t == "dir":
                 node = g.run(self.nm.create_new_mutable_directory(version=rng.choice([SDMF_VERSION, MDMF_VERSION])))
                 self.caps[o] = {"w": node.get_uri(), "r": node.get_readonly_uri()}
+                # the traversing gateway opens the (still empty) directory by its cap, lists it and keeps the handle
+                for cap_ in (node.get_uri(), node.get_readonly_uri()):
+                    h_ = self.nm.create_from_cap(cap_)
+                    g.run(h_.list())
+                    self.keep.append(h_)
             elif t == "mfile" and o in graph.get("alias", {}):
                 continue
             elif t == "mfile":
@@ -836,7 +845,7 @@ class GraphWorld:
                 for x in graph["kids"][o]:
                     c = self.caps[x["to"]]
                     ents[gname(x["name"])] = (c["w"], c["r"]) if x["lvl"] == "w" else (None, c["r"])
-                g.run(self.nm.create_from_cap(self.caps[o]["w"]).set_children(ents))
+                g.run(self.filler.create_from_cap(self.caps[o]["w"]).set_children(ents))
         if any(t == "idir" for t in types.values()):
             # the padding child of an immutable directory is part of the real graph: add it to the graph the Spec sees
             n = len(types)
